@@ -600,7 +600,8 @@ func (s *Sim) run() {
 	k.OpYields = 4000
 	k.MaxSteps = 300000
 	if s.plan.MassKeys {
-		k.MaxSteps = 4000000 // more than eight thousand calls
+		k.MaxSteps = 6000000 // more than eight thousand calls
+		k.OpYields = 1 << 20 // one callback walks tens of thousands of keys: not a spin
 	}
 	if s.plan.Cfg.Max > 100 && s.plan.Cfg.Max < 1000 {
 		k.MaxSteps = 4000000 // every pick reads the stream count of every channel (a yield point each)
@@ -1117,6 +1118,23 @@ func (s *Sim) stepsAfter(o Op) {
 	}
 }
 
+// overlapsConn: operation i is followed - after more operations flagged
+// FlagOverlap at most - by a connection report.
+//
+//go:norace
+func (s *Sim) overlapsConn(i int) bool {
+	for j := i + 1; j < len(s.plan.Ops); j++ {
+		o := s.plan.Ops[j]
+		if o.K == OpConn {
+			return true
+		}
+		if o.F&FlagOverlap == 0 || (o.K != OpPick && o.K != OpDone) {
+			return false
+		}
+	}
+	return false
+}
+
 // endReq ends the application's request context (once).
 //
 //go:norace
@@ -1259,10 +1277,19 @@ func (s *Sim) exec(i int, o Op) {
 		s.stepsAfter(o)
 	case OpPick:
 		s.startCall(i, o)
+		if o.F&FlagOverlap != 0 && !s.conc && s.overlapsConn(i) {
+			// (as for completions below: this pick and the connection report that
+			// follows overlap; the pick is judged as ever - the state of a channel
+			// whose replacement takes over is READY before, during and after)
+			s.k.RunSteps(o.N)
+			s.overlap = true
+			env.Fired["pick_overlapping_the_next_connection_report"]++
+			return
+		}
 		s.stepsAfter(o)
 	case OpDone:
 		s.completeCall(i, o)
-		if o.F&FlagOverlap != 0 && !s.conc && i+1 < len(s.plan.Ops) && s.plan.Ops[i+1].K == OpConn {
+		if o.F&FlagOverlap != 0 && !s.conc && s.overlapsConn(i) {
 			// the only overlap inside a serial plan: this completion and the
 			// connection report that follows it (the model knows, see kLo)
 			s.k.RunSteps(o.N)
@@ -2317,6 +2344,8 @@ func (s *Sim) healConnsAndCalls(i int) {
 	s.afterOp()
 	if s.conc && !s.degraded && !s.stop {
 		s.model.RRBurstCheck()
+		s.model.GrowthBurstCheck()
+		s.drain()
 	}
 	for _, c := range s.calls {
 		if s.stop {
